@@ -174,6 +174,13 @@ class C17(Prop):
                 vio("callback-while-not-running", f"after {after!r}: broadcast sent while the bridge was not running reached the callback")
                 for t in late:
                     must_not_deliver.pop(t, None)
+            if model and len(trace) % 3 == 0:
+                twin = self.Bridge(log.callback, ports)     # same ports, never started
+                await twin.stop()
+                for idx, p in enumerate(ports):
+                    if await self.rig.barrier(p, timeout=5.0) != "ok":
+                        vio("other-bridge-affected", f"after {after!r}: stopping another, never started bridge object configured for the same ports silenced port #{idx}")
+                        break
             if bystander.is_running is not True or await self.rig.barrier(bport, timeout=5.0) != "ok":
                 vio("other-bridge-affected", f"after {after!r} an independent running bridge reports is_running={bystander.is_running} or no longer delivers")
 
